@@ -57,6 +57,11 @@ def Definition.dirs (x : Definition) : List Directive :=
   match x.execParts with
   | some (_, vds, ds) => ds ++ vds.flatMap (·.directives) ++ x.sels.flatMap Selection.directives
   | none => []
+/-- every variable definition of an executable definition -/
+def Definition.vdefs (x : Definition) : List VariableDefinition :=
+  match x.execParts with
+  | some (_, vds, _) => vds
+  | none => []
 /-- every argument of an executable definition: of its fields and of its directives -/
 def Definition.args (x : Definition) : List Argument :=
   x.sels.flatMap Selection.arguments ++ x.dirs.flatMap (·.arguments)
@@ -232,6 +237,30 @@ theorem definition_parts (fl : Flags) (x : Definition) (ss : SelectionSet) (vds 
       obtain ⟨h1, h2⟩ := variableDefinitions_dirs f.variableDefinitions vd hv d hd
       exact ⟨((h1.left _).tail _ |>.tail _).node _, fun hh => h2 hh.1.1.2⟩
   | _ => simp [Definition.execParts] at h
+
+theorem definition_vdefs (fl : Flags) (x : Definition) (w : VariableDefinition) (h : w ∈ x.vdefs) :
+    Item.Sub (variableDefinitionV w) (definitionV x) ∧ (wfDefinition fl x = true → wfVariableDefinition w = true) := by
+  cases x with
+  | operation o =>
+    simp only [Definition.vdefs, Definition.execParts] at h
+    have h1 : SubL (variableDefinitionV w) (variableDefinitionsV o.variableDefinitions) :=
+      SubL.group _ _ variableDefinitionV h .refl
+    simp only [definitionV, wfDefinition, wfOperation, Bool.and_eq_true]
+    unfold operationV
+    split
+    · rename_i hsh
+      simp only [isShorthand, decide_eq_true_eq] at hsh
+      have hv : o.variableDefinitions = [] := by simpa using hsh.2.2.1
+      rw [hv] at h; cases h
+    · exact ⟨((((h1.right _).left _).left _).tail _).node _, fun hh => all_mem hh.1.1.2 h⟩
+  | fragment f =>
+    simp only [Definition.vdefs, Definition.execParts] at h
+    have h1 : SubL (variableDefinitionV w) (variableDefinitionsV f.variableDefinitions) :=
+      SubL.group _ _ variableDefinitionV h .refl
+    simp only [definitionV, wfDefinition, wfFragment, Bool.and_eq_true]
+    unfold fragmentV
+    exact ⟨((h1.left _).tail _ |>.tail _).node _, fun hh => all_mem hh.1.1.2 h⟩
+  | _ => simp [Definition.vdefs, Definition.execParts] at h
 
 theorem definition_sels (fl : Flags) (x : Definition) (w : Selection) (h : w ∈ x.sels) :
     Item.Sub (selectionV w) (definitionV x) ∧ (wfDefinition fl x = true → wfSelection w = true) := by
